@@ -225,7 +225,11 @@ func (r *Run) Finish() int {
 			"sig": c.Sig, "detail": c.Detail, "case": c.Case, "seed": r.Seed, "tier": r.Tier}, "", " ")
 		os.WriteFile(path, b, 0o644)
 		fmt.Printf("VIOLATION property=%s replay=%s\n", r.ID, path)
-		fmt.Printf("  class=%s sig=%s\n  %s\n", c.Class, c.Sig, c.Detail)
+		det := c.Detail
+		if len(det) > 900 {
+			det = det[:900] + " ... (full text in the replay file)"
+		}
+		fmt.Printf("  class=%s sig=%s\n  %s\n", c.Class, c.Sig, det)
 	}
 	cov := map[string]any{
 		"states": r.States, "transitions": r.Transitions,
